@@ -206,6 +206,8 @@ end
 mutual
 /-- expressions the language can produce and on which `build` and the meaning of the source agree -/
 def wfE : Expr F → Bool
+  -- a literal is a number, text, symbol, …: never an expression value (those come from `{}` only)
+  | .lit (.expr _) => false
   | .lit _ | .input | .ident _ | .nested _ | .emptyNested => true
   | .unary op x => unOK op && wfE x
   | .binary op l r => binOK op && wfE l && wfE r
